@@ -6,6 +6,7 @@
   over all of ℤ × ℤ, not samples.
 -/
 import H2.Model.Step
+import H2.Props.C29
 
 namespace H2.C12
 open H2 H2.Gen H2.Conn
@@ -100,6 +101,27 @@ theorem C12_local (items : List (Int × Int)) (hr : ∀ kv ∈ items, 0 ≤ kv.1
       constructor
       · intro h'; simp_all
       · intro _; trivial
+
+/-! ### along every history -/
+
+/-- every value a settings object holds — in force or waiting for its acknowledgement — passed `_validate_setting` -/
+def AllValid (s : Settings) : Prop := ∀ e ∈ s, ∀ x ∈ e.2, validB e.1 x = true
+
+theorem allValid_of_ok (s : Settings) (h : s.all entryOk = true) : AllValid s := by
+  intro e he x hx
+  have h1 := List.all_eq_true.mp h e he
+  unfold entryOk at h1
+  simp only [Bool.and_eq_true] at h1
+  exact List.all_eq_true.mp h1.1.2 x hx
+
+/-- **no invalid value is ever stored**: in every state reachable by any public calls and any received bytes, every
+    value in the local and in the remote settings object (current or pending) is one `_validate_setting` accepts —
+    `update_settings` and `_receive_settings_frame` check before they store, an initial value comes from the
+    library's own defaults, and acknowledgement only moves values -/
+theorem C12_stored_settings_valid_every_history (cfg : Config) (c : Conn) (h : C29.Reachable cfg c) :
+    AllValid c.localSettings ∧ AllValid c.remoteSettings := by
+  have hi := C29.C29_reachable_invariant cfg c h
+  exact ⟨allValid_of_ok _ hi.1.1.1.ls.2.2, allValid_of_ok _ hi.1.1.1.rs.2.2⟩
 
 /-- non-vacuity / boundary witnesses, evaluated in the kernel on the generated function -/
 example : validate_setting 4 2147483647 = .ok 0 ∧ validate_setting 4 2147483648 = .ok 3 ∧
